@@ -84,6 +84,9 @@ def classify_kind(site):
     return k
 
 
+USE_ARGSUM = os.environ.get("FV_NO_ARGSUM") is None
+
+
 def collect(facts, crates, kinds):
     """-> (sites, n_functions): every site of the requested kinds in hand-written code of `crates`"""
     from ..intervals import register_adts
@@ -96,19 +99,29 @@ def collect(facts, crates, kinds):
     retsum.register(facts)
     out = []
     nfn = 0
-    for c in crates:
-        if c not in facts.crates:
-            continue
-        for b in facts.all_bodies(c):
-            if b.generated or CORE_RE.search(b.file):
+    from .. import argsum, intervals
+    asum = argsum.get(facts) if USE_ARGSUM else None
+    saved = intervals.PARAM_INFO
+    if asum is not None:
+        intervals.PARAM_INFO = asum.reg
+    try:
+        for c in crates:
+            if c not in facts.crates:
                 continue
-            nfn += 1
-            res = check_zone([b], keep_iv=True)
-            for s in res.sites:
-                s["kind"] = classify_kind(s)
-                if not any(s["kind"].startswith(k) for k in kinds):
+            for b in facts.all_bodies(c):
+                if b.generated or CORE_RE.search(b.file):
                     continue
-                out.append(s)
+                nfn += 1
+                res = check_zone([b], keep_iv=True, iv_of=asum.iv_of if asum is not None else None)
+                for s in res.sites:
+                    s["kind"] = classify_kind(s)
+                    if not any(s["kind"].startswith(k) for k in kinds):
+                        continue
+                    if not s["ok"] is False and s.get("iv") is not None and s["iv"].used_param_info:
+                        s["why"] = f"{s['why']} [entry facts from {asum.reg[b.path].get('sites')} call site(s)]"
+                    out.append(s)
+    finally:
+        intervals.PARAM_INFO = saved
     return out, nfn
 
 
@@ -203,6 +216,16 @@ def run_sites(chk, facts, rid, cfg):
     chk.stats[f"{rid}:{cfg}:tolerated_confirmed"] = n_conf
     chk.stats[f"{rid}:{cfg}:tolerated_untriaged_not_claimed"] = n_untri
     chk.stats[f"{rid}:{cfg}:tolerated_as_moved_within_file"] = n_moved
+    asum = getattr(facts, "_argsum", None)
+    if asum is not None:
+        n_entry = sum(1 for s in sites if s["ok"] and "[entry facts from" in s["why"])
+        chk.stats[f"{rid}:{cfg}:closed_functions_summarised"] = asum.stats["closed"]
+        chk.stats[f"{rid}:{cfg}:closed_functions_with_entry_facts"] = len(asum.reg)
+        chk.stats[f"{rid}:{cfg}:call_sites_evaluated_for_entry_facts"] = asum.stats["callsites"]
+        chk.stats[f"{rid}:{cfg}:sites_in_functions_analysed_with_entry_facts"] = n_entry
+        chk.assume("A-CLOSED: a function with restricted visibility that is neither a trait item nor ever used as a function "
+                   "value is entered only through the direct calls in the analysed crates (test-only callers are not part "
+                   "of the build the property is about)")
     return sites, n_ok
 
 
@@ -262,11 +285,15 @@ def run_engine_fixture(chk, rid="engine-fixture"):
         intervals.RET_RANGES.clear()
         intervals.RET_RANGES.update(retsum.compute(facts))
         nb = ng = 0
+        from .. import argsum
+        asum = argsum.get(facts)
+        saved_pi = intervals.PARAM_INFO
+        intervals.PARAM_INFO = asum.reg
         for b in facts.all_bodies(facts.crates[0]):
             name = b.path.split("::")[-1]
             if "{closure" in b.path or not (name.startswith("bad_") or name.startswith("good_")):
                 continue
-            res = check_zone([b])
+            res = check_zone([b], iv_of=asum.iv_of)
             bad = [s for s in res.sites if not s["ok"]]
             if name.startswith("bad_"):
                 nb += 1
@@ -279,9 +306,11 @@ def run_engine_fixture(chk, rid="engine-fixture"):
                 chk.ob(rid, f"idiom {name}: {len(res.sites) - len(bad)} of {len(res.sites)} site(s) proved", not bad and bool(res.sites),
                        key=f"idiom|{name}", file=b.file, line=b.lo, fn=b.path,
                        detail="a standard safe idiom is no longer proved: " + "; ".join(s["why"] for s in bad)[:200])
-        chk.floor(rid, "traps", nb, 19)
-        chk.floor(rid, "safe idioms", ng, 10)
+        chk.floor(rid, "traps", nb, 26)
+        chk.floor(rid, "safe idioms", ng, 12)
     finally:
+        if "saved_pi" in locals():
+            intervals.PARAM_INFO = saved_pi
         intervals.FIELD_RANGES.clear()
         intervals.FIELD_RANGES.update(saved[0])
         intervals.COUNTER_FIELDS.clear()
